@@ -740,7 +740,12 @@ BAD_LIMITS = (('noninteger', '1.5'), ('noninteger', '1/2'), ('noninteger', 'x+0.
               # negative non-integers, a negative imaginary number, limits that evaluate to nan or to an array,
               # a field holding nothing but white space
               ('noninteger', '-1.5'), ('noninteger', '-1/2'), ('complex', '-i'), ('noninteger-nan', 'infty-infty'),
-              ('noninteger-array', '[1, 2]'), ('blank', ' '))
+              ('noninteger-array', '[1, 2]'), ('blank', ' '),
+              # complex-TYPED limits whose imaginary part cancels: (4+0j) is still not a real number for the library, and
+              # whatever it does with it must reach the student as a library error -- also with debug=True, where
+              # non-library exceptions are not wrapped
+              ('complex-zero-imag', 'i^2+5'), ('complex-zero-imag', '4+0*i'), ('complex-zero-imag', 'j^4*4'),
+              ('complex-zero-imag', 'i-i'))
 BAD_SUMMANDS = (('instructor-var', 'c*{v}+x'), ('instructor-var', '5*{v}+x+0*c'), ('instructor-var', '5*{v}+x+0*pi'),
                 ('blank', ''), ('blank', ' '))
 BAD_VARS = (('variable-declared', 'x'), ('variable-constant', 'i'), ('variable-constant', 'j'),
@@ -759,7 +764,8 @@ class StudentErrors(Family):
     rule = ('author sum_{n=0..3} c*n+x (x in DiscreteSet(2,3), c = 5 instructor-only, pi also instructor-only; a user '
             'function uf, a random function rf where named, a user constant kc), '
             'every subset of input_positions x every entered field x its error alphabet (limits %s, summand %s, '
-            'variable %s) x the other entered fields clean-correct or clean-incorrect; expected: a student-facing '
+            'variable %s) x the other entered fields clean-correct or clean-incorrect (complex limits also with '
+            'debug=True); expected: a student-facing '
             'error (StudentFacingError, not ConfigError), never a verdict; the instructor variable\'s name used as '
             'the dummy variable is recorded but not judged' % (list(BAD_LIMITS), list(BAD_SUMMANDS), list(BAD_VARS)))
 
@@ -769,11 +775,13 @@ class StudentErrors(Family):
                 alphabet = (BAD_LIMITS if field in ('lower', 'upper') else
                             BAD_SUMMANDS if field == 'summand' else BAD_VARS)
                 for bi in range(len(alphabet)):
-                    for clean in (0, 1):
+                    # clean 2, 3 = clean 0, 1 with debug=True (complex limits only)
+                    for clean in (0, 1) + ((2, 3) if alphabet[bi][0].startswith('complex') else ()):
                         yield (si, field, bi, clean)
 
     def build(self, case):
         si, field, bi, clean = case
+        debug, clean = clean >= 2, clean % 2
         subset = SUBSETS[si]
         alphabet = (BAD_LIMITS if field in ('lower', 'upper') else
                     BAD_SUMMANDS if field == 'summand' else BAD_VARS)
@@ -796,7 +804,7 @@ class StudentErrors(Family):
         prob = {'answers': {'lower': '0', 'upper': '3', 'summand': 'c*n+x', 'summation_variable': AUTHOR_VAR},
                 'positions': {k: i + 1 for i, k in enumerate(subset)},
                 'even_odd': 0, 'tolerance': 1e-9, 'samples': 2, 'xvals': XVALS, 'instr': True,
-                'randfunc': kind == 'variable-random-function',
+                'randfunc': kind == 'variable-random-function', 'debug': True if debug else None,
                 'input': [fields[k] for k in subset]}
         return prob, kind
 
